@@ -239,6 +239,9 @@ func (l *Ledger) wellFormed(t *Txn) string {
 	return ""
 }
 
+// BlockTxnRules exposes the in-block hard rules for one transaction.
+func (l *Ledger) BlockTxnRules(t *Txn) TxnCheck { return l.hardRules(t, true) }
+
 // hardRules checks a transaction against the unspent set at the head.
 // inBlock selects the two documented legacy relaxations for transactions
 // inside a signed block.  It returns Class Hard/OK/Undecided.
@@ -487,8 +490,10 @@ type BlockVerdict struct {
 	Reason string
 }
 
-// CheckBlock decides whether a (strict-mode) node must append b.
-func (l *Ledger) CheckBlock(b *Block) BlockVerdict {
+// CheckHeader applies the rules that do not depend on the transactions'
+// validity: signature, not a second genesis, sequence, time, parent hash and
+// body hash.  It returns Accept when all of them hold.
+func (l *Ledger) CheckHeader(b *Block) BlockVerdict {
 	hh := b.Head.Hash()
 	pub, ok := Recover([32]byte(hh), [65]byte(b.Sig))
 	if !ok || pub != l.Cfg.PubKey || !SigLowS([65]byte(b.Sig)) {
@@ -509,6 +514,14 @@ func (l *Ledger) CheckBlock(b *Block) BlockVerdict {
 	}
 	if b.Head.Body != BodyHash(b.Txns) {
 		return BlockVerdict{Reject, "body hash"}
+	}
+	return BlockVerdict{Accept, ""}
+}
+
+// CheckBlock decides whether a (strict-mode) node must append b.
+func (l *Ledger) CheckBlock(b *Block) BlockVerdict {
+	if hv := l.CheckHeader(b); hv.V != Accept {
+		return hv
 	}
 	if len(b.Txns) == 0 {
 		return BlockVerdict{Reject, "no transactions"}
